@@ -26,8 +26,12 @@ func runC11(c *Ctx) {
 	if fd, _ := c.MustFunc("R11a", "lang", "Process", "Fork"); fd != nil {
 		c.checkForkScoping(info, fd, "Variables", "R11a", func(rhs ast.Expr) string {
 			if call, ok := unparen(rhs).(*ast.CallExpr); ok && callIs(info, call, mx("lang"), "", "NewVariables") {
-				if len(call.Args) == 1 && strings.HasSuffix(c.src(call.Args[0]), ".Process") {
-					return "fresh"
+				if len(call.Args) == 1 {
+					if se, ok := unparen(call.Args[0]).(*ast.SelectorExpr); ok && se.Sel.Name == "Process" {
+						if id, ok := unparen(se.X).(*ast.Ident); ok && info.ObjectOf(id) != nil && info.ObjectOf(id) == forkResultObj(info, fd) {
+							return "fresh"
+						}
+					}
 				}
 				return "fresh(other process)"
 			}
@@ -44,13 +48,14 @@ func runC11(c *Ctx) {
 	if fd, _ := c.MustFunc("R11b", "lang", "", "executeProcess"); fd != nil {
 		F := c.forkFlagConsts()
 		nf := 0
+		defs := localDefs(info, fd.Body)
 		ast.Inspect(fd.Body, func(nd ast.Node) bool {
 			call, ok := nd.(*ast.CallExpr)
 			if !ok || !callIs(info, call, mx("lang"), "Process", "Fork") || len(call.Args) != 1 {
 				return true
 			}
 			nf++
-			v, okc := constInt(info, call.Args[0])
+			v, okc := constInt(info, defs.resolve1(info, call.Args[0])) // constant flags, possibly named by a single-definition local
 			c.Check(okc && v&F["F_FUNCTION"] != 0, "R11b", "executeProcess:fork#"+itoa(nf), call.Pos(), "function call forks with F_FUNCTION (flags %s)", c.src(call.Args[0]))
 			return true
 		})
@@ -86,13 +91,23 @@ func runC11(c *Ctx) {
 			if fd == nil {
 				continue
 			}
-			got := ""
+			got, gotSrc := "", ""
 			for _, call := range calls(fd.Body, false) {
 				if callIs(tinfo, call, mx("builtins/core/typemgmt"), "", w[0]) && len(call.Args) == 2 {
-					got = c.src(call.Args[1])
+					gotSrc = c.src(call.Args[1])
+					got = "other:" + gotSrc
+					arg := unparen(call.Args[1])
+					if isPkgObj(tinfo, arg, mx("lang"), "GlobalVariables") {
+						got = "lang.GlobalVariables"
+					} else if se, ok := arg.(*ast.SelectorExpr); ok && isField(tinfo, se, mx("lang")+".Process", "Variables") {
+						// the calling process's own table: <first parameter>.Variables
+						if id, ok := unparen(se.X).(*ast.Ident); ok && isParam(tinfo, fd, id) {
+							got = "p.Variables"
+						}
+					}
 				}
 			}
-			c.Check(got == w[1], "R11d", "builtin:"+name, fd.Pos(), "%s calls %s(p, %s) (got %q)", name, w[0], w[1], got)
+			c.Check(got == w[1], "R11d", "builtin:"+name, fd.Pos(), "%s calls %s(p, %s) (got %q)", name, w[0], w[1], gotSrc)
 		}
 		// registration
 		reg := map[string]string{"set": "cmdSet", "!set": "cmdUnset", "global": "cmdGlobal", "!global": "cmdUnglobal"}
@@ -161,10 +176,9 @@ func runC11(c *Ctx) {
 				return true
 			}
 			for _, f := range factsOf(guardsAt(info, stack)) {
-				if b, ok := unparen(f.E).(*ast.BinaryExpr); ok && b.Op == token.EQL && f.True {
-					if n, ok := unparen(b.Y).(*ast.Ident); ok && n.Name == "nil" {
-						errOnMissing = true
-					}
+				// `x == nil` known true or `x != nil` known false, nil on either side
+				if _, isNil, ok := nilTestFact(info, f); ok && isNil {
+					errOnMissing = true
 				}
 			}
 			return true
@@ -192,106 +206,151 @@ func runC11(c *Ctx) {
 	}
 }
 
-// checkForkScoping: per arm of `if flags&F_FUNCTION != 0 {…} else {…}` classify
-// the last store to fork.<field>.
-func (c *Ctx) checkForkScoping(info *types.Info, fd *ast.FuncDecl, field, rule string, classify func(ast.Expr) string) {
+// forkBranch is the `if flags&F_FUNCTION != 0 {…} else {…}` of Process.Fork, recognised semantically.
+type forkBranch struct {
+	fnIf            *ast.IfStmt
+	fnArm, otherArm ast.Node
+	isFork          func(ast.Expr) bool // e is the fork under construction (the variable Fork returns)
+	defs            defMap
+}
+
+// forkFunctionBranch finds the branch on the F_FUNCTION bit: recognised by what the condition computes (a test of
+// that bit of an integer expression against 0 or against the bit itself, in either operand order, possibly
+// negated or named by a single-definition local), not by its text. Reports anchor-lost / undecided itself.
+func (c *Ctx) forkFunctionBranch(info *types.Info, fd *ast.FuncDecl, rule string) *forkBranch {
 	var fnIf *ast.IfStmt
+	pol := true // cond true ⇒ F_FUNCTION set
+	defs := localDefs(info, fd.Body)
+	bit := c.forkFlagConsts()["F_FUNCTION"]
 	for _, s := range fd.Body.List {
-		if is, ok := s.(*ast.IfStmt); ok && strings.Contains(c.src(is.Cond), "F_FUNCTION") {
-			fnIf = is
+		if is, ok := s.(*ast.IfStmt); ok {
+			if p, ok := flagBitTest(info, defs, is.Cond, bit); ok {
+				fnIf, pol = is, p
+			}
 		}
 	}
 	if fnIf == nil {
 		c.Lost(rule, "Fork:F_FUNCTION-branch", "no top-level `if flags&F_FUNCTION != 0` in Process.Fork")
-		return
+		return nil
 	}
-	// polarity: cond true ⇒ F_FUNCTION set
-	pol := true
-	if b, ok := unparen(fnIf.Cond).(*ast.BinaryExpr); ok && b.Op == token.EQL {
-		pol = false
+	// the fork under construction: the variable the function returns (whatever it is called)
+	forkObj := forkResultObj(info, fd)
+	isFork := func(e ast.Expr) bool {
+		id, ok := unparen(e).(*ast.Ident)
+		if !ok {
+			return false
+		}
+		if forkObj != nil {
+			return info.ObjectOf(id) == forkObj
+		}
+		return id.Name == "fork"
 	}
 	fnArm, otherArm := ast.Node(fnIf.Body), fnIf.Else
 	if !pol {
 		fnArm, otherArm = fnIf.Else, fnIf.Body
 	}
-	stores := func(n ast.Node) [][]string {
-		// returns the sequences of classified stores along each syntactic path (flattened per leaf block)
-		var out [][]string
-		var walk func(list []ast.Stmt, acc []string)
-		walk = func(list []ast.Stmt, acc []string) {
-			for i, s := range list {
-				switch x := s.(type) {
-				case *ast.AssignStmt:
-					for k, l := range x.Lhs {
-						if se, ok := l.(*ast.SelectorExpr); ok && se.Sel.Name == field && k < len(x.Rhs) {
-							if id, ok := se.X.(*ast.Ident); ok && id.Name == "fork" {
-								acc = append(append([]string(nil), acc...), classify(x.Rhs[k]))
-							}
-						}
-					}
-				case *ast.IfStmt:
-					rest := list[i+1:]
-					thenL := append(append([]ast.Stmt(nil), x.Body.List...), rest...)
-					walk(thenL, acc)
-					var elseL []ast.Stmt
-					switch e := x.Else.(type) {
-					case *ast.BlockStmt:
-						elseL = append(append([]ast.Stmt(nil), e.List...), rest...)
-					case *ast.IfStmt:
-						elseL = append([]ast.Stmt{e}, rest...)
-					default:
-						elseL = rest
-					}
-					walk(elseL, acc)
-					return
-				case *ast.SwitchStmt:
-					rest := list[i+1:]
-					hasDefault := false
-					for _, cs := range x.Body.List {
-						cc := cs.(*ast.CaseClause)
-						if cc.List == nil {
-							hasDefault = true
-						}
-						walk(append(append([]ast.Stmt(nil), cc.Body...), rest...), acc)
-					}
-					if !hasDefault {
-						walk(rest, acc)
-					}
-					return
-				}
-			}
-			out = append(out, acc)
-		}
-		if b, ok := n.(*ast.BlockStmt); ok {
-			walk(b.List, nil)
-		}
-		return out
-	}
 	if fnArm == nil || otherArm == nil {
 		c.Undecided(rule, "Fork:arms", fnIf.Pos(), "F_FUNCTION branch has no else arm")
-		return
+		return nil
 	}
-	okFn := true
-	pathsFn := stores(fnArm)
-	for _, p := range pathsFn {
-		if len(p) == 0 || p[len(p)-1] != "fresh" {
-			okFn = false
+	return &forkBranch{fnIf: fnIf, fnArm: fnArm, otherArm: otherArm, isFork: isFork, defs: defs}
+}
+
+// storePath: the classified stores to fork.<field> along one syntactic path through a block, with the branch
+// conditions taken on that path as atomic facts.
+type storePath struct {
+	stores []string
+	facts  []Fact
+}
+
+func (p storePath) last() string {
+	if len(p.stores) == 0 {
+		return ""
+	}
+	return p.stores[len(p.stores)-1]
+}
+
+// storePaths enumerates the paths through n (if/else and switch arms; flattened per leaf block).
+func (fb *forkBranch) storePaths(n ast.Node, field string, classify func(ast.Expr) string) []storePath {
+	var out []storePath
+	var walk func(list []ast.Stmt, acc []string, facts []Fact)
+	with := func(facts []Fact, gs ...Guard) []Fact {
+		return append(append([]Fact(nil), facts...), factsOf(gs)...)
+	}
+	walk = func(list []ast.Stmt, acc []string, facts []Fact) {
+		for i, s := range list {
+			switch x := s.(type) {
+			case *ast.AssignStmt:
+				for k, l := range x.Lhs {
+					if se, ok := l.(*ast.SelectorExpr); ok && se.Sel.Name == field && k < len(x.Rhs) {
+						if fb.isFork(se.X) {
+							acc = append(append([]string(nil), acc...), classify(x.Rhs[k]))
+						}
+					}
+				}
+			case *ast.IfStmt:
+				rest := list[i+1:]
+				thenL := append(append([]ast.Stmt(nil), x.Body.List...), rest...)
+				walk(thenL, acc, with(facts, Guard{Cond: x.Cond}))
+				var elseL []ast.Stmt
+				switch e := x.Else.(type) {
+				case *ast.BlockStmt:
+					elseL = append(append([]ast.Stmt(nil), e.List...), rest...)
+				case *ast.IfStmt:
+					elseL = append([]ast.Stmt{e}, rest...)
+				default:
+					elseL = rest
+				}
+				walk(elseL, acc, with(facts, Guard{Cond: x.Cond, Neg: true}))
+				return
+			case *ast.SwitchStmt:
+				rest := list[i+1:]
+				hasDefault := false
+				var negs []Guard // a tagless switch: the earlier cases were false
+				for _, cs := range x.Body.List {
+					if cc := cs.(*ast.CaseClause); x.Tag == nil {
+						for _, e := range cc.List {
+							negs = append(negs, Guard{Cond: e, Neg: true})
+						}
+					}
+				}
+				var earlier []Guard
+				for _, cs := range x.Body.List {
+					cc := cs.(*ast.CaseClause)
+					gs := append([]Guard(nil), earlier...)
+					if cc.List == nil {
+						hasDefault = true
+						gs = negs
+					} else if x.Tag == nil {
+						if len(cc.List) == 1 {
+							gs = append(gs, Guard{Cond: cc.List[0]})
+						}
+						for _, e := range cc.List {
+							earlier = append(earlier, Guard{Cond: e, Neg: true})
+						}
+					}
+					walk(append(append([]ast.Stmt(nil), cc.Body...), rest...), acc, with(facts, gs...))
+				}
+				if !hasDefault {
+					walk(rest, acc, with(facts, negs...))
+				}
+				return
+			}
 		}
+		out = append(out, storePath{acc, facts})
 	}
-	c.Check(okFn && len(pathsFn) > 0, rule, "Fork:F_FUNCTION-arm:"+field, fnArm.Pos(), "every path through the F_FUNCTION arm ends with fork.%s = <fresh for the fork> (paths: %v)", field, pathsFn)
-	okOther := true
-	pathsO := stores(otherArm)
-	for _, p := range pathsO {
-		if len(p) == 0 || p[len(p)-1] != "parent" {
-			okOther = false
-		}
+	if b, ok := n.(*ast.BlockStmt); ok {
+		walk(b.List, nil, nil)
 	}
-	c.Check(okOther && len(pathsO) > 0, rule, "Fork:other-arms:"+field, otherArm.Pos(), "every path through the non-function arms ends with fork.%s = p.%s (%d paths: %v)", field, field, len(pathsO), pathsO)
-	// no store to fork.<field> after the branch
+	return out
+}
+
+// laterStore: fork.<field> is assigned after the F_FUNCTION branch.
+func (fb *forkBranch) laterStore(fd *ast.FuncDecl, field string) bool {
 	after := false
 	seen := false
 	for _, s := range fd.Body.List {
-		if s == ast.Stmt(fnIf) {
+		if s == ast.Stmt(fb.fnIf) {
 			seen = true
 			continue
 		}
@@ -302,7 +361,7 @@ func (c *Ctx) checkForkScoping(info *types.Info, fd *ast.FuncDecl, field, rule s
 			if as, ok := n.(*ast.AssignStmt); ok {
 				for _, l := range as.Lhs {
 					if se, ok := l.(*ast.SelectorExpr); ok && se.Sel.Name == field {
-						if id, ok := se.X.(*ast.Ident); ok && id.Name == "fork" {
+						if fb.isFork(se.X) {
 							after = true
 						}
 					}
@@ -311,7 +370,39 @@ func (c *Ctx) checkForkScoping(info *types.Info, fd *ast.FuncDecl, field, rule s
 			return true
 		})
 	}
-	c.Check(!after, rule, "Fork:no-later-store:"+field, fnIf.End(), "fork.%s is not reassigned after the F_FUNCTION branch", field)
+	return after
+}
+
+// checkForkScoping: per arm of `if flags&F_FUNCTION != 0 {…} else {…}` classify
+// the last store to fork.<field>.
+func (c *Ctx) checkForkScoping(info *types.Info, fd *ast.FuncDecl, field, rule string, classify func(ast.Expr) string) {
+	fb := c.forkFunctionBranch(info, fd, rule)
+	if fb == nil {
+		return
+	}
+	lasts := func(ps []storePath) (out [][]string) {
+		for _, p := range ps {
+			out = append(out, p.stores)
+		}
+		return
+	}
+	okFn := true
+	pathsFn := fb.storePaths(fb.fnArm, field, classify)
+	for _, p := range pathsFn {
+		if p.last() != "fresh" {
+			okFn = false
+		}
+	}
+	c.Check(okFn && len(pathsFn) > 0, rule, "Fork:F_FUNCTION-arm:"+field, fb.fnArm.Pos(), "every path through the F_FUNCTION arm ends with fork.%s = <fresh for the fork> (paths: %v)", field, lasts(pathsFn))
+	okOther := true
+	pathsO := fb.storePaths(fb.otherArm, field, classify)
+	for _, p := range pathsO {
+		if p.last() != "parent" {
+			okOther = false
+		}
+	}
+	c.Check(okOther && len(pathsO) > 0, rule, "Fork:other-arms:"+field, fb.otherArm.Pos(), "every path through the non-function arms ends with fork.%s = p.%s (%d paths: %v)", field, field, len(pathsO), lasts(pathsO))
+	c.Check(!fb.laterStore(fd, field), rule, "Fork:no-later-store:"+field, fb.fnIf.End(), "fork.%s is not reassigned after the F_FUNCTION branch", field)
 }
 
 func (c *Ctx) checkLookupOrder(info *types.Info, fd *ast.FuncDecl, helper string) {
@@ -365,60 +456,49 @@ func (c *Ctx) checkLookupOrder(info *types.Info, fd *ast.FuncDecl, helper string
 		return out
 	}
 	_ = defs
-	// miss(call) established at node: there is a preceding top-level `if <hit test on call's result> { return }`
-	// between the call and the node, with no reassignment of the result variables in between.
-	missBefore := func(call *ast.CallExpr, at ast.Node) bool {
-		list := fd.Body.List
-		ci, ai := topLevelIndex(list, call), topLevelIndex(list, at)
-		if ci < 0 || ai < 0 || ci >= ai {
-			return false
-		}
+	// miss(call) established at node `at`: among the structural guards of `at` (enclosing if/else/switch arms and
+	// earlier `if c { return }` exits of every enclosing block — guardsAt) there is a fact that says the lookup
+	// missed — `<result> != nil` / `<exists>` known FALSE or `<result> == nil` known TRUE, nil on either side —
+	// whose test is evaluated after the call, with no other assignment to that result variable between the test
+	// and `at`. This covers the early-return chain, the if-with-init form and the nested `if v == nil { v = next }`.
+	missBefore := func(call *ast.CallExpr, at *ast.CallExpr) bool {
 		rvs := resultVars(call)
-		for k := ci + 1; k < ai; k++ {
-			is, ok := list[k].(*ast.IfStmt)
-			if ok && is.Else == nil && terminates(info, is.Body.List) {
-				// cond mentions a result var of the call positively: value != nil / exists
-				hit := false
-				for _, f := range factsOf([]Guard{{Cond: is.Cond}}) {
-					e := unparen(f.E)
-					if id, ok := e.(*ast.Ident); ok && f.True {
-						for _, o := range rvs {
-							if info.ObjectOf(id) == o {
-								hit = true
-							}
-						}
+		isRes := func(e ast.Expr) types.Object {
+			if id, ok := unparen(e).(*ast.Ident); ok {
+				for _, o := range rvs {
+					if o != nil && info.ObjectOf(id) == o {
+						return o
 					}
-					if b, ok := e.(*ast.BinaryExpr); ok && b.Op == token.NEQ && f.True {
-						bx, by := unparen(b.X), unparen(b.Y)
-						if n0, ok := bx.(*ast.Ident); ok && n0.Name == "nil" {
-							bx, by = by, bx
-						}
-						if id, ok := bx.(*ast.Ident); ok {
-							if n, ok := by.(*ast.Ident); ok && n.Name == "nil" {
-								for _, o := range rvs {
-									if info.ObjectOf(id) == o {
-										hit = true
-									}
-								}
-							}
-						}
-					}
-				}
-				if hit {
-					return true
 				}
 			}
-			// reassignment of the result variable by another statement voids the chain
-			if as, ok := list[k].(*ast.AssignStmt); ok {
-				for _, l := range as.Lhs {
-					if id, ok := l.(*ast.Ident); ok {
-						for _, o := range rvs {
-							if info.ObjectOf(id) == o {
-								return false
-							}
+			return nil
+		}
+		for _, f := range factsOf(guardsAt(info, stacks[at])) {
+			var o types.Object
+			if x, isNil, ok := nilTestFact(info, f); ok {
+				if isNil {
+					o = isRes(x)
+				}
+			} else if !f.True {
+				o = isRes(f.E)
+			}
+			if o == nil || f.E.Pos() < call.End() || f.E.End() > at.Pos() {
+				continue
+			}
+			// no other assignment to the result variable between the test and the later lookup
+			clobbered := false
+			ast.Inspect(fd.Body, func(n ast.Node) bool {
+				if as, ok := n.(*ast.AssignStmt); ok && as.Pos() > f.E.End() && as.End() <= at.Pos() {
+					for _, l := range as.Lhs {
+						if id, ok := l.(*ast.Ident); ok && info.ObjectOf(id) == o {
+							clobbered = true
 						}
 					}
 				}
+				return true
+			})
+			if !clobbered {
+				return true
 			}
 		}
 		return false
@@ -456,4 +536,76 @@ func (c *Ctx) checkLookupOrder(info *types.Info, fd *ast.FuncDecl, helper string
 		}
 	}
 	c.Check(okArm, "R11c", name+":global-table-answers-itself", fd.Pos(), "when the receiver is the global table, %s answers from its own table and returns before any other source", name)
+}
+
+// flagBitTest: cond (through parentheses, `!` and single-definition locals) tests one bit of an integer
+// expression: `x&BIT != 0`, `x&BIT == 0`, `x&BIT == BIT`, `x&BIT != BIT`, operands in either order. pol is
+// true when a true condition means the bit is set.
+func flagBitTest(info *types.Info, defs defMap, cond ast.Expr, bit int64) (pol, ok bool) {
+	e := defs.resolve1(info, cond)
+	if u, isU := e.(*ast.UnaryExpr); isU && u.Op == token.NOT {
+		p, ok := flagBitTest(info, defs, u.X, bit)
+		return !p, ok
+	}
+	b, isB := e.(*ast.BinaryExpr)
+	if !isB || (b.Op != token.EQL && b.Op != token.NEQ) {
+		return false, false
+	}
+	for _, pr := range [][2]ast.Expr{{b.X, b.Y}, {b.Y, b.X}} {
+		k, isC := constInt(info, pr[1])
+		and, isA := unparen(pr[0]).(*ast.BinaryExpr)
+		if !isC || !isA || and.Op != token.AND {
+			continue
+		}
+		m1, c1 := constInt(info, and.X)
+		m2, c2 := constInt(info, and.Y)
+		if !(c1 && !c2 && m1 == bit) && !(c2 && !c1 && m2 == bit) {
+			continue
+		}
+		switch k {
+		case 0:
+			return b.Op == token.NEQ, true
+		case bit:
+			return b.Op == token.EQL, true
+		}
+	}
+	return false, false
+}
+
+// forkResultObj: the local variable a constructor-like function returns (`return fork` as its last statement).
+func forkResultObj(info *types.Info, fd *ast.FuncDecl) types.Object {
+	if fd.Body == nil || len(fd.Body.List) == 0 {
+		return nil
+	}
+	if rs, ok := fd.Body.List[len(fd.Body.List)-1].(*ast.ReturnStmt); ok && len(rs.Results) == 1 {
+		if id, ok := unparen(rs.Results[0]).(*ast.Ident); ok {
+			return info.ObjectOf(id)
+		}
+	}
+	return nil
+}
+
+// nilTestFact: the fact is a comparison of some operand with nil (nil on either side); isNil says whether the
+// fact establishes operand == nil (`x == nil` known true, or `x != nil` known false).
+func nilTestFact(info *types.Info, f Fact) (operand ast.Expr, isNil, ok bool) {
+	b, isB := unparen(f.E).(*ast.BinaryExpr)
+	if !isB || (b.Op != token.EQL && b.Op != token.NEQ) {
+		return nil, false, false
+	}
+	isNilId := func(e ast.Expr) bool {
+		id, ok := unparen(e).(*ast.Ident)
+		if !ok {
+			return false
+		}
+		_, isN := info.ObjectOf(id).(*types.Nil)
+		return isN
+	}
+	x, y := unparen(b.X), unparen(b.Y)
+	if isNilId(x) {
+		x, y = y, x
+	}
+	if !isNilId(y) || isNilId(x) {
+		return nil, false, false
+	}
+	return x, (b.Op == token.EQL) == f.True, true
 }
